@@ -171,7 +171,8 @@ def check_webhooks(p, host):
     route = '/' + host
     events = bitbucket_events() if host == 'bitbucket' else github_events()
     for ev, payload, creates in events:
-        for ident in ('match', 'other owner', 'other slug'):
+        for ident in ('match', 'other owner', 'other slug', 'no repository',
+                      'empty identity'):
             data = copy.deepcopy(payload)
             if host == 'bitbucket':
                 repo = copy.deepcopy(data.get('repository', {}))
@@ -181,6 +182,11 @@ def check_webhooks(p, host):
                 repo['name'] = 'test_repo' if ident != 'other slug' \
                     else 'other_repo'
                 data['repository'] = repo
+                if ident == 'no repository':
+                    data.pop('repository')
+                elif ident == 'empty identity':
+                    data['repository'] = {'owner': {'username': ''},
+                                          'name': ''}
             else:
                 repo = copy.deepcopy(GH_REPO)
                 if ident == 'other owner':
@@ -190,6 +196,11 @@ def check_webhooks(p, host):
                     repo['full_name'] = 'test_owner/other_repo'
                     repo['name'] = 'other_repo'
                 data['repository'] = repo
+                if ident == 'no repository':
+                    data.pop('repository')
+                elif ident == 'empty identity':
+                    data['repository'] = {'full_name': '', 'name': '',
+                                          'owner': {'id': 1, 'login': ''}}
             for cname, auth in CREDS:
                 drain(b)
                 from bert_e.git_host import cache
